@@ -110,7 +110,7 @@ def run(ctx):
         if "PropsC08" not in b["file"] and "VyLaws" not in b["file"]:
             return
     t0 = time.time()
-    rounds = 2 if ctx.tier == "quick" else 12
+    rounds = 2 if ctx.tier == "quick" else 8
     mk = lambda salt: ctx.rng("matrix:" + salt)
     # classify every (position, round) by which front end accepts it (a rejection is a compile-time outcome, not an effect-order
     # violation; it is recorded in the evidence)
